@@ -67,6 +67,97 @@ def world2 (da db : Option TI) (spatial : Bool) : World Bool Unit :=
   { dt := fun s => if s then db else da, containsCoord := fun _ _ => spatial,
     containsShape := fun _ _ => spatial, intersectsShape := fun _ _ => spatial }
 
+/-! ### histories (`st.hist`)
+
+`st.hist <A> <routeA> <B> <routeB|al> | <iAB><cAB><iBA><cBA> | <step> …` — objects `A` (receiver), `B` (probe), `O` (the
+object a copying mutator was called on).  Steps: `X?i` `X?c` `X?n` (`intersects` / `contains` / `in` against the
+counterpart: `B` for `A`,`O`; `A` for `B`), `X?d` (its `dt`), `X?t:<timearg>` `X?x:<timearg>`
+(`contains_time` / `intersects_time`); `X!<mut>` (in place), `X~<mut>` (`inplace=False`: `O := X` for `A`, `X := ` the
+returned copy), `X.<k>!<mut>` (in place on member `k` of a multi-shape: no effect on the multi-shape's own bounds);
+`<mut>` = `sd:<datetime>` | `si:<datetime>,<datetime>` | `sn` | `st` | `bf:<µs>`.  One answer token per step. -/
+
+structure HState where
+  a : Option TI
+  b : Option TI
+  o : Option TI
+  /-- `O` is a second object only after a copying call on `A` succeeded; until then the name denotes `A` itself -/
+  split : Bool := false
+
+def HState.get (s : HState) (x : Char) : Option TI :=
+  if x == 'A' then s.a else if x == 'B' then s.b else if s.split then s.o else s.a
+
+def HState.set (s : HState) (x : Char) (d : Option TI) : HState :=
+  if x == 'A' then { s with a := d } else if x == 'B' then { s with b := d }
+  else if s.split then { s with o := d } else { s with a := d }
+
+def parseMut (m : String) : Option (Except String Mut) :=
+  if m == "sn" then some (.ok (.setDt .none))
+  else if m == "st" then some (.ok .stripDt)
+  else match m.splitOn ":" with
+    | ["sd", x] => (parsePyDt x).map fun d => .ok (.setDt (.dt d))
+    | ["si", x] => (parsePair x).map fun p =>
+        match mkInterval p.1 p.2 with | .ok t => .ok (.setDt (.ti t)) | .error e => .error e
+    | ["bf", x] => (parseInt x).map fun b => .ok (.bufferDt b)
+    | _ => none
+
+def showDtTok : Option TI → String
+  | none => "none"
+  | some t => s!"{t.start}_{t.stop}"
+
+/-- one step: the new state and the answer token (`none` = malformed step) -/
+def histStep (sp : Bool × Bool × Bool × Bool) (s : HState) (step : String) : Option (HState × String) :=
+  match step.toList with
+  | x :: '?' :: rest =>
+    let q := String.ofList rest
+    let me := s.get x
+    let other := if x == 'B' then s.a else s.b
+    let (spi, spc) := if x == 'B' then (sp.2.2.1, sp.2.2.2) else (sp.1, sp.2.1)
+    if q == "d" then some (s, showDtTok me)
+    else if q == "i" then some (s, showBool ((world2 me other spi).intersects false true))
+    else if q == "c" then some (s, showBool ((world2 me other spc).contains false (.inr true)))
+    else if q == "n" then some (s, showBool ((world2 me other spc).dunderContains false (.inr true)))
+    else match rest with
+      | 't' :: ':' :: ta =>
+        match parseTimeArg (String.ofList ta) with
+        | some (.ok a) => some (s, showBool (containsTime me a))
+        | some (.error e) => some (s, e)
+        | none => none
+      | 'x' :: ':' :: ta =>
+        match parseTimeArg (String.ofList ta) with
+        | some (.ok a) => some (s, showBool (intersectsTime me a))
+        | some (.error e) => some (s, e)
+        | none => none
+      | _ => none
+  | x :: '!' :: rest =>
+    match parseMut (String.ofList rest) with
+    | some (.ok m) =>
+      match applyMut (s.get x) m with
+      | .ok d => some (s.set x d, "ok")
+      | .error e => some (s, e)
+    | some (.error e) => some (s, e)
+    | none => none
+  | x :: '~' :: rest =>
+    match parseMut (String.ofList rest) with
+    | some (.ok m) =>
+      match applyMut (s.get x) m with
+      | .ok d =>
+        if x == 'A' then some ({ s with o := s.a, split := true, a := d }, "ok")
+        else if x == 'O' && !s.split then some ({ s with o := s.a, split := true, a := d }, "ok")
+        else some (s.set x d, "ok")
+      | .error e => some (s, e)
+    | some (.error e) => some (s, e)
+    | none => none
+  | _ :: '.' :: _ => some (s, "ok")        -- a member's own bounds are not the multi-shape's
+  | _ => none
+
+def runHist (sp : Bool × Bool × Bool × Bool) : HState → List String → Option (List String)
+  | _, [] => some []
+  | s, st :: rest =>
+    match histStep sp s st with
+    | some (s', tok) => (runHist sp s' rest).map (tok :: ·)
+    | none => none
+
+
 end GV.Drv.C05
 
 namespace GV.Drv
@@ -102,6 +193,16 @@ def handleST (op : String) (args : List String) : String :=
     | some (.error e), _ => e
     | _, some (.error e) => e
     | _, _ => "bad-op"
+  | "hist", sa :: ra :: sb :: rb :: "|" :: bits :: "|" :: steps =>
+    let _ := (sa, sb)
+    match routeDt ra, (if rb == "al" then routeDt ra else routeDt rb), optAll (bits.toList.map fun c => parseBool (String.singleton c)) with
+    | some (.ok da), some (.ok db), some [b1, b2, b3, b4] =>
+      match runHist (b1, b2, b3, b4) { a := da, b := db, o := da } steps with
+      | some toks => " ".intercalate toks
+      | none => "bad-op"
+    | some (.error e), _, _ => e
+    | _, some (.error e), _ => e
+    | _, _, _ => "bad-op"
   | _, [_sa, ra, _sb, rb, "|", sp] =>
     match routeDt ra, routeDt rb, parseBool sp with
     | some (.ok da), some (.ok db), some spatial =>
